@@ -126,7 +126,8 @@ def gen_min_cases(rng, n):
         x0 = rng.choice([-4.0, -0.5, 0.0, 0.5, 1.0, 2.0, 4.5])
         out.append({"expr": FAMILIES[kind].format(a=a, b=b, c=c), "kind": kind, "abc": [fhex(a), fhex(b), fhex(c)], "x0": x0,
                     "bounds": bounds, "lr": rng.choice([0.05, 0.1]), "max_iter": rng.choice([60, 400]), "tol": rng.choice([1e-4, 1e-3]),
-                    "bounds_kind": "none" if bounds is None else "zero-end" if 0 in [v for v in bounds if v is not None] else "one-sided" if None in bounds else "two-sided"})
+                    "bounds_kind": "none" if bounds is None else "zero-end" if 0 in [v for v in bounds if v is not None] else "one-sided" if None in bounds else "two-sided",
+                    "reuse": rng.random() < 0.4})
     return out
 
 
